@@ -230,15 +230,32 @@ def coq_makefile():
         run(["coq_makefile", "-f", "_CoqProject", "-o", "Makefile"], cwd=COQ, check=True)
 
 
+class _Lock:
+    """flock on coq/.buildlock: checks of different properties may run concurrently but share coq/ and
+    ocaml/_build, so every make / extraction / driver build is serialised."""
+
+    def __enter__(self):
+        import fcntl
+        self.fh = open(os.path.join(COQ, ".buildlock"), "w")
+        fcntl.flock(self.fh, fcntl.LOCK_EX)
+        return self
+
+    def __exit__(self, *a):
+        import fcntl
+        fcntl.flock(self.fh, fcntl.LOCK_UN)
+        self.fh.close()
+
+
 def coq_make(targets, timeout=3000, keep_going=True):
     """make -k <targets> in /verif/coq. Returns (ok, log)."""
-    coq_makefile()
-    cmd = ["make", "-j%d" % NPROC] + (["-k"] if keep_going else []) + list(targets)
-    try:
-        p = run(cmd, cwd=COQ, timeout=timeout)
-    except subprocess.TimeoutExpired as e:
-        return False, "TIMEOUT after %ss" % timeout
-    return p.returncode == 0, p.stdout + p.stderr
+    with _Lock():
+        coq_makefile()
+        cmd = ["make", "-j%d" % NPROC] + (["-k"] if keep_going else []) + list(targets)
+        try:
+            p = run(cmd, cwd=COQ, timeout=timeout)
+        except subprocess.TimeoutExpired as e:
+            return False, "TIMEOUT after %ss" % timeout
+        return p.returncode == 0, p.stdout + p.stderr
 
 
 def write_if_changed(path, content):
@@ -287,14 +304,17 @@ def prove(prop_file, extra_targets=()):
     gate = grep_gate()
     vo = "Properties/%s.vo" % prop_file
     # force re-check of the property file itself so that Print Assumptions is re-emitted
-    for ext in (".vo", ".glob", ".vok", ".vos"):
-        try:
-            os.remove(os.path.join(COQ, "Properties", prop_file + ext))
-        except FileNotFoundError:
-            pass
+    # touching the source makes `make` re-check the file (and re-emit Print Assumptions) without a window in
+    # which a concurrent check sees no .vo
+    try:
+        os.utime(os.path.join(COQ, "Properties", prop_file + ".v"), None)
+    except OSError:
+        pass
     ok, log = coq_make([vo] + list(extra_targets))
     ths = theorems_of("Properties/%s.v" % prop_file)
-    built = os.path.exists(os.path.join(COQ, vo))
+    vsrc = os.path.join(COQ, "Properties", prop_file + ".v")
+    built = (ok and os.path.exists(os.path.join(COQ, vo))
+             and os.path.getmtime(os.path.join(COQ, vo)) >= os.path.getmtime(vsrc))
     assum = print_assumptions_of(log)
     bad_ax = [a for a in assum if a.startswith("Axioms:") and not any(s in a for s in STD_AXIOMS)]
     failed = []
@@ -327,6 +347,11 @@ def build_driver():
     ok, log = coq_make(["Extract.vo"])
     if not ok:
         raise BuildError("extraction failed (models do not compile):\n" + log[-3000:])
+    with _Lock():
+        return _build_driver_locked(exdir, drv, mls, srcs)
+
+
+def _build_driver_locked(exdir, drv, mls, srcs):
     ml = os.path.join(exdir, "m4model.ml")
     if os.path.exists(drv) and all(os.path.getmtime(drv) >= os.path.getmtime(s) for s in srcs + [ml]):
         return drv
